@@ -76,6 +76,8 @@ structure LitRegs where
   start : Nat := 0
   stop : Nat := 0
   lastEnd : Nat := 0
+  /-- `seen_escape` -/
+  seen : Bool := false
   deriving Repr, DecidableEq, Inhabited
 
 structure Lexer where
